@@ -53,6 +53,12 @@ def prepare(tier, scratch):
 
 
 META = {
+    "functions_encoded": [
+        "mir-x86_64.c: _MIR_redirect_thunk, _MIR_get_thunk_addr, _MIR_replace_bb_thunk (C functions, executed symbolically)",
+        "mir.c: _MIR_change_code, _MIR_set_code, _MIR_flush_code_cache, MIR_mem_protect (C functions, executed symbolically)",
+        "mir-x86_64.c: machine code of _MIR_get_thunk + _MIR_redirect_thunk (short, long, long then short), _MIR_get_wrapper, "
+        "_MIR_get_wrapper_end, _MIR_get_bb_thunk, _MIR_replace_bb_thunk, _MIR_get_bb_wrapper, _MIR_get_interp_shim, lifted",
+    ],
     "bounds": {"trampolines": "the 7 trampoline kinds of mir-x86_64.c x 2 stack alignments; machine state fully symbolic",
                "thunk arithmetic": "every pair of addresses thunk, to in [4096, 2^47)"},
     "assumptions": [
